@@ -72,6 +72,9 @@ func c41structs(m *Module, pkg string) []c41structInfo {
 }
 
 func c41stats(m *Module) {
+	if os.Getenv("FGCHECK_C41_STATS") == "cow" {
+		return
+	}
 	structs := c41structs(m, "kgo")
 	owner := map[*types.Var]*c41structInfo{}
 	for i := range structs {
